@@ -130,6 +130,47 @@ class SubclassOfKnownControl(sl.ShowDeletedControl):
 
 
 @dataclasses.dataclass(frozen=True)
+class AltFilter(sl.LDAPFilter):
+    """Another application's filter type that happens to use the same number as CustomFilter (in another session)."""
+    filter_id: int = dataclasses.field(init=False, repr=False, default=1024)
+    alt: bytes = b""
+
+    def pack(self, writer, options):
+        writer.write_octet_string(self.alt, tag=A.ASN1Tag(A.TagClass.CONTEXT_SPECIFIC, self.filter_id, False))
+
+    @classmethod
+    def unpack(cls, reader, options):
+        return AltFilter(alt=reader.read_octet_string(A.ASN1Tag(A.TagClass.CONTEXT_SPECIFIC, cls.filter_id, False)))
+
+
+@dataclasses.dataclass(frozen=True)
+class AltAuth(sl.AuthenticationCredential):
+    auth_id: int = dataclasses.field(init=False, repr=False, default=1024)
+    alt: bytes = b""
+
+    def pack(self, writer, options):
+        writer.write_octet_string(self.alt, tag=A.ASN1Tag(A.TagClass.CONTEXT_SPECIFIC, self.auth_id, False))
+
+    @classmethod
+    def unpack(cls, reader, options):
+        return AltAuth(alt=reader.read_octet_string(tag=A.ASN1Tag(A.TagClass.CONTEXT_SPECIFIC, cls.auth_id, False)))
+
+
+@dataclasses.dataclass(frozen=True)
+class AltControl(sl.LDAPControl):
+    control_type: str = dataclasses.field(init=False, repr=False, default=CUSTOM_CONTROL_OID)
+    value: t.Optional[bytes] = dataclasses.field(init=False, repr=False, default=None)
+    alt: bytes = b""
+
+    def get_value(self, options):
+        return self.alt
+
+    @classmethod
+    def unpack(cls, control_type, critical, value, options):
+        return AltControl(critical=critical, alt=value or b"")
+
+
+@dataclasses.dataclass(frozen=True)
 class ClashControl(sl.LDAPControl):  # same OID as a built-in: registration must be refused
     control_type: str = dataclasses.field(init=False, repr=False, default="1.2.840.113556.1.4.319")
 
@@ -162,7 +203,7 @@ def gates(c, tier):
               "direct:unregistered-generic-control", "direct:unregistered-filter-protocolerror", "direct:unregistered-auth-protocolerror",
               "direct:duplicate-refused", "direct:builtin-clash-refused", "custom-bytes-in-sequence", "registration-in-sequence",
               "caller-buffer-shared-between-sessions", "direct:multi-control-messages", "direct:same-number-different-form", "direct:nested-custom-filter", "direct:deepcopy-independence", "fresh-process-reference-runs",
-              "direct:late-registration-decodes-custom", "direct:free-id-registrations", "direct:fresh-session-after-foreign-failure", "direct:one-memoryview-two-sessions", "direct:subclass-of-known-control",
+              "direct:late-registration-decodes-custom", "direct:free-id-registrations", "direct:fresh-session-after-foreign-failure", "direct:one-memoryview-two-sessions", "direct:subclass-of-known-control", "direct:same-id-different-class", "direct:errors-are-per-session",
               "direct:fresh-session-after-many-unknown-codes", "direct:fresh-session-after-dropped-sessions"):
         if c.get(k, 0) == 0:
             out.append(f"never observed {k}")
@@ -767,6 +808,68 @@ def direct_checks():
         vio.append(("registration-leaked:control:subclass-of-known-type", f"first registration of a subclass of a known control on a fresh session refused: {e}"))
     except sl.LDAPError as e:
         vio.append(("registered-control-not-decoded:subclass-of-known-type", f"{type(e).__name__}: {e}"))
+    # two sessions, two different application types under the same number / OID: each decodes with its own class,
+    # whichever decoded first
+    for kind, cls_a, cls_b, mk in (("filter", CustomFilter, AltFilter, bytes_custom_filter), ("auth", CustomAuth, AltAuth, bytes_custom_auth),
+                                   ("control", CustomControl, AltControl, lambda i: bytes_custom_control(i, "server"))):
+        try:
+            sa, sb = sl.LDAPServer(), sl.LDAPServer()
+            getattr(sa, REG[kind][0])(cls_a)
+            getattr(sb, REG[kind][0])(cls_b)
+            order_ = [(sa, cls_a), (sb, cls_b)] if ORDER_FLIP % 2 == 0 else [(sb, cls_b), (sa, cls_a)]
+            ok = True
+            for rnd in range(2):
+                for sx, cx in order_:
+                    mid_ = 40 + rnd * 2 + (0 if sx is sa else 1)
+                    got_ = sx.receive(mk(mid_))[0]
+                    if cx.__name__ not in repr(got_):
+                        vio.append((f"same-id-different-class-in-two-sessions:{kind}", f"the session that registered {cx.__name__} decoded {repr(got_)[:160]}"))
+                        ok = False
+                        break
+                    if sx.state.name == "BINDING":
+                        sx.bind_response(mid_)
+                    elif kind == "filter":
+                        sx.search_result_done(mid_)
+                    else:
+                        sx.extended_response(mid_)
+                    sx.data_to_send()
+                if not ok:
+                    break
+            if ok:
+                obs["direct:same-id-different-class"] = obs.get("direct:same-id-different-class", 0) + 1
+        except (sl.LDAPError, ValueError) as e:
+            vio.append((f"same-id-different-class-in-two-sessions:{kind}", f"{type(e).__name__}: {e}"))
+    # an error raised for one session is that session's: what it carries does not change when another session fails later
+    try:
+        srv_x, cli_x = sl.LDAPServer(), sl.LDAPClient()
+        errs = []
+        for sx in (srv_x, cli_x):
+            try:
+                sx.receive(b"\x04\x00")
+            except sl.ProtocolError as e:
+                errs.append(e)
+        again = []
+        for sx in (srv_x, cli_x, srv_x):
+            try:
+                sx.receive(b"\x30\x00")
+            except sl.ProtocolError as e:
+                again.append((e, None if e.response is None else bytes(e.response), str(e)))
+        snap = [(None if e.response is None else bytes(e.response)) for e in errs]
+        srv_later = sl.LDAPServer()
+        try:
+            srv_later.receive(b"\xff\xff\xff\xff\xff\xff")
+        except sl.ProtocolError:
+            pass
+        now = [(None if e.response is None else bytes(e.response)) for e in errs]
+        now_again = [(None if e.response is None else bytes(e.response), str(e)) for e, _, _ in again]
+        if now != snap or now_again != [(r_, t_) for _, r_, t_ in again]:
+            vio.append(("error-object-shared-between-sessions", "the response bytes / text carried by a ProtocolError changed after another session raised its own error"))
+        elif again[0][1] is not None and again[1][1] is not None and again[0][1] == again[1][1]:
+            vio.append(("error-object-shared-between-sessions", "a closed server and a closed client report the same response bytes"))
+        else:
+            obs["direct:errors-are-per-session"] = 1
+    except Exception as e:
+        vio.append((f"error-object-check:{type(e).__name__}", str(e)))
     # the custom filter nested under and / or / not
     regf = sl.LDAPServer()
     regf.register_filter(CustomFilter)
